@@ -142,6 +142,10 @@ def run(repo: Repo, chk: Check, thorough: bool = False) -> None:
                 continue
             if isinstance(v, ast.Call) and call_name(v) == 'flatten':
                 continue
+            # the same template as an f-string: constant text around `super().__repr__()`
+            if isinstance(v, ast.JoinedStr) and all(isinstance(x, ast.Constant) or (isinstance(x, ast.FormattedValue) and isinstance(x.value, ast.Call) and
+                                                                                     call_name(x.value) == '__repr__' and 'super()' in norm(x.value)) for x in v.values):
+                continue
             ok = False
             why = f'returns {norm(v)[:50]}: not produced by the escaping HTML translator'
         chk.ob('R10.3', f'pydoctor.astbuilder.{cname}.__repr__ :: only translator output', ok,
@@ -168,8 +172,13 @@ def run(repo: Repo, chk: Check, thorough: bool = False) -> None:
         scope = [g] + [h for h in repo.funcs.values() if h.outer is g]
         helpers = {nm for h in scope for c in calls_in(h) if call_name(c) == 'escape' for nm in [h.name]} | \
             {k.name for k in repo.classes.values() if k.mod is g.mod and any(call_name(c) == 'escape' for m in k.methods.values() for c in calls_in(m))}
+        from ..util import single_value
+
+        def _val(e: ast.AST) -> ast.AST:
+            v_ = single_value(g, e.id) if isinstance(e, ast.Name) else None      # a named intermediate: `ra = escaped(...)` ; `replace(return_annotation=ra)`
+            return v_ if v_ is not None else e
         wrapped = all(any(isinstance(x, ast.Call) and (call_name(x) in helpers or any(call_name(y) in helpers for h in scope if h.name == call_name(x) for y in calls_in(h)))
-                          for x in ast.walk(k.value)) for c in reps for k in c.keywords if k.arg in ('default', 'annotation', 'return_annotation'))
+                          for x in ast.walk(_val(k.value))) for c in reps for k in c.keywords if k.arg in ('default', 'annotation', 'return_annotation'))
         return {'default', 'annotation', 'return_annotation', 'parameters'} <= kws and bool(helpers) and wrapped
     # ... or the one consumer does it: format_signature stringifies the result of such a function, which keeps the escaping formatters and wraps the rest
     def _keeps_formatters(g: Func) -> bool:
@@ -253,7 +262,13 @@ def run(repo: Repo, chk: Check, thorough: bool = False) -> None:
     fcalls = [c for c in calls_in(dep) if call_name(c) == 'format' and 'template' in norm(c.func)]
     if len(fcalls) < 2:
         chk.error(f'R10.5: {len(fcalls)} template.format(...) calls in deprecatedToUsefulText (2 confirmed by hand)')
-    validators = {g.name for g in repo.funcs.values() if g.qn.startswith(dep.qn + '.') and g.outer is dep}   # helpers defined inside, at any depth of its blocks
+    # the validators, by role: helpers defined inside deprecatedToUsefulText (at any depth of its blocks) or at module level next to it, that it calls
+    # and that test isidentifier()
+    called_d = {call_name(c) for c in calls_in(dep)}
+    vfuncs = {g.name: g for g in repo.funcs.values() if g.name in called_d and ((g.qn.startswith(dep.qn + '.') and g.outer is dep) or
+                                                                                  (g.mod is dep.mod and g.cls is None and g.outer is None and
+                                                                                   any(call_name(c) == 'isidentifier' for c in calls_in(g))))}
+    validators = set(vfuncs)
     for c in fcalls:
         for kw in c.keywords:
             v = kw.value
@@ -265,7 +280,7 @@ def run(repo: Repo, chk: Check, thorough: bool = False) -> None:
             chk.ob('R10.5', key, ok, why, repo.loc(dep.mod, c))
     # the validator quantifies over *every* dotted part
     for vn in sorted(validators):
-        vf = repo.funcs.get(f'{dep.qn}.{vn}')
+        vf = vfuncs.get(vn)
         if vf is None:
             continue
         idc = [c for c in calls_in(vf) if call_name(c) == 'isidentifier']
